@@ -98,6 +98,10 @@ type Scenario struct {
 	Targets []Tgt       `json:"targets"`
 	Cycles  [][]Replica `json:"cycles"`
 	Note    string      `json:"note,omitempty"`
+	// Raws: when Raws[i] is not empty, the configuration was reloaded before cycle i: the coordinator's
+	// configuration is a new object with that raw content and the SAME hash (a reload that only changed
+	// what the hash leaves out, e.g. the external labels)
+	Raws []string `json:"raws,omitempty"`
 }
 
 // Req is one request a shard received.
@@ -310,6 +314,7 @@ type Env struct {
 	explore map[uint64]*target.ScrapeStatus
 	active  map[uint64]*discovery.SDTargets
 	curReps *fakeReps
+	cfg     *prom.ConfigInfo
 	// ExploreGet, when set, replaces the scripted explorer (C20 glue).
 	ExploreGet func(hash uint64) *target.ScrapeStatus
 }
@@ -346,9 +351,9 @@ func NewEnv(sc *Scenario) *Env {
 		Period:           time.Second,
 		DisableAlleviate: o.NoRelieve,
 	}
-	cfg := &prom.ConfigInfo{RawContent: []byte(RawCfg), ConfigHash: CfgHash, ExtraConfig: &prom.ExtraConfig{}}
+	e.cfg = &prom.ConfigInfo{RawContent: []byte(RawCfg), ConfigHash: CfgHash, ExtraConfig: &prom.ExtraConfig{}}
 	e.co = coordinator.NewCoordinator(opt, e.curReps,
-		func() *prom.ConfigInfo { return cfg },
+		func() *prom.ConfigInfo { return e.cfg },
 		func(h uint64) *target.ScrapeStatus {
 			if e.ExploreGet != nil {
 				return e.ExploreGet(h)
@@ -365,6 +370,11 @@ func NewEnv(sc *Scenario) *Env {
 		},
 		prometheus.NewRegistry(), quietLog)
 	return e
+}
+
+// SetRaw reloads the coordinator's configuration: a new object, new raw content, unchanged hash.
+func (e *Env) SetRaw(raw string) {
+	e.cfg = &prom.ConfigInfo{RawContent: []byte(raw), ConfigHash: CfgHash, ExtraConfig: e.cfg.ExtraConfig}
 }
 
 // SetActive replaces the discovered set (hash -> job).
@@ -448,7 +458,10 @@ func Run(sc *Scenario) *Obs {
 	defer vrt.ClockOff()
 	e := NewEnv(sc)
 	o := &Obs{}
-	for _, reps := range sc.Cycles {
+	for ci, reps := range sc.Cycles {
+		if ci < len(sc.Raws) && sc.Raws[ci] != "" {
+			e.SetRaw(sc.Raws[ci])
+		}
 		o.Cycles = append(o.Cycles, e.Cycle(reps))
 	}
 	return o
